@@ -187,6 +187,8 @@ Tables7 == {[cols |-> t.cols \o <<[n |-> "f", ty |-> "b"]>>, rows |-> [i \in 1..
 Sep7 == {31, 0, 44, 39}
 UVN == {<<Null, StrV(<<A>>)>>, <<StrV(<<>>), StrV(<<A>>)>>, <<Null, Null>>, <<StrV(<<>>), StrV(<<>>)>>, <<StrV(<<>>), Null>>}
        \cup {<<StrV(<<A, sp>>), StrV(<<B>>)>> : sp \in Sep7} \cup {<<StrV(<<A>>), StrV(<<sp, B>>)>> : sp \in Sep7}
+       \* a value that imitates the boundary between two values: separator + a type tag ("s", "string(") inside the text
+       \cup UNION {{<<StrV(<<A, sp>> \o tag \o <<B>>), StrV(<<99>>)>>, <<StrV(<<A>>), StrV(<<B, sp>> \o tag \o <<99>>)>>} : sp \in {31, 0}, tag \in {<<115>>, <<115, 116, 114, 105, 110, 103, 40>>}}
 RowGrp7(m, uv) == <<IntV(1), IntV(2), IntV(m), Null, uv[1], uv[2], Null>>
 TablesGrp7 == {[cols |-> Cols7 \o <<[n |-> "f", ty |-> "b"]>>, rows |-> <<RowGrp7(0, a), RowGrp7(30, b), RowGrp7(7, c)>>] : a \in UVN, b \in UVN, c \in UVN}
 Agg(k, c) == Item(k, Ref("", c), NoCmp, "")
